@@ -90,3 +90,65 @@ pub fn first_diff(got: &Entries, want: &Entries) -> Option<String> {
         show(&want.get(i).cloned())
     ))
 }
+
+// ---------------------------------------------------------------------------------------------
+// cursor operations as data
+
+#[derive(Clone, Debug, PartialEq, Eq)]
+pub enum COp {
+    First,
+    Last,
+    Next,
+    Prev,
+    Ge(Vec<u8>),
+    Le(Vec<u8>),
+    Eq(Vec<u8>),
+    Reset,
+}
+
+impl COp {
+    pub fn show(&self) -> String {
+        match self {
+            COp::First => "first".into(),
+            COp::Last => "last".into(),
+            COp::Next => "next".into(),
+            COp::Prev => "prev".into(),
+            COp::Ge(q) => format!("GE({})", brief(q)),
+            COp::Le(q) => format!("LE({})", brief(q)),
+            COp::Eq(q) => format!("EQ({})", brief(q)),
+            COp::Reset => "reset".into(),
+        }
+    }
+    pub fn is_abs(&self) -> bool {
+        !matches!(self, COp::Next | COp::Prev | COp::Reset)
+    }
+}
+
+/// Applies one operation to a real cursor under a panic/error guard.
+pub fn apply<R: Read + Seek>(c: &mut ReaderCursor<R>, op: &COp) -> Check<Option<(Vec<u8>, Vec<u8>)>> {
+    match op {
+        COp::First => guard("move_on_first", || c.move_on_first().map(own)),
+        COp::Last => guard("move_on_last", || c.move_on_last().map(own)),
+        COp::Next => guard("move_on_next", || c.move_on_next().map(own)),
+        COp::Prev => guard("move_on_prev", || c.move_on_prev().map(own)),
+        COp::Ge(q) => guard("move_on_key_greater_than_or_equal_to", || c.move_on_key_greater_than_or_equal_to(q).map(own)),
+        COp::Le(q) => guard("move_on_key_lower_than_or_equal_to", || c.move_on_key_lower_than_or_equal_to(q).map(own)),
+        COp::Eq(q) => guard("move_on_key_equal_to", || c.move_on_key_equal_to(q).map(own)),
+        COp::Reset => {
+            c.reset();
+            Ok(None)
+        }
+    }
+}
+
+/// Model answer of an absolute operation.
+pub fn model_abs(m: &crate::model::Model, op: &COp) -> Option<usize> {
+    match op {
+        COp::First => (!m.e.is_empty()).then_some(0),
+        COp::Last => m.e.len().checked_sub(1),
+        COp::Ge(q) => m.ceil(q),
+        COp::Le(q) => m.floor(q),
+        COp::Eq(q) => m.exact(q),
+        _ => unreachable!(),
+    }
+}
